@@ -401,6 +401,7 @@ func (eng *Engine) modifiesKeys(c *FuncContract, fn *ssa.Function) *WriteSet {
 	w := newWriteSet()
 	if st.heap.base != base {
 		w.setAll("modifies * of " + c.Key)
+		w.except = append([]string{}, st.heap.base.except...)
 	}
 	for k := range st.heap.m {
 		w.keys[k] = true
